@@ -1,5 +1,6 @@
 SPECIFICATION Spec
 CONSTANTS
+  Wide = FALSE
   Kinds = {"inv3"}
 INVARIANT RoundTrip
 INVARIANT VecRoundTrip
